@@ -52,9 +52,10 @@ serde_json = "1"
 
 
 def run_demo():
-    r = sh(f"cd {DEMO} && timeout 600 cargo run --offline -q 2>&1 | tail -15")
-    r2 = sh(f"cd {DEMO} && timeout 600 cargo run --offline -q >/dev/null 2>&1; echo $?")
-    return int(r2.stdout.strip().split("\n")[-1]), r.stdout
+    r = sh(f"cd {DEMO} && timeout 900 cargo run --offline -q 2>&1; echo EXIT=$?")
+    lines = r.stdout.rstrip().split("\n")
+    rc = int(lines[-1].split("=")[1]) if lines and lines[-1].startswith("EXIT=") else 99
+    return rc, "\n".join(lines[-16:-1])
 
 
 def main():
